@@ -127,6 +127,19 @@ def _routine_case(item):
                     add("takagi", "SingularValues", np.allclose(np.sort(rl), np.sort(lam), atol=1e-8), "rl=%s lambda=%s" % (np.round(rl, 6).tolist(), lam.tolist()))
                 except Exception as e:  # noqa
                     add("takagi", "Raises", False, "%s: %s (lambda=%s)" % (type(e).__name__, str(e)[:100], lam.tolist()))
+            # boundary of tolerance: slightly non-symmetric -> rejected or decomposed correctly
+            if n > 1:
+                for eps in (1e-6, 3e-5):
+                    bad = (U @ np.diag(np.arange(1, n + 1)) @ U.T).astype(complex)
+                    bad[0, -1] += eps
+                    try:
+                        rl, Ut = dec.takagi(bad)
+                        err = np.max(np.abs(Ut @ np.diag(rl) @ Ut.T - bad))
+                        add("takagi", "InvalidRejected", err < 1e-8, "input asymmetric by %g was decomposed with error %.3g" % (eps, err))
+                    except ValueError:
+                        add("takagi", "InvalidRejected", True)
+                    except Exception as e:  # noqa
+                        add("takagi", "InvalidRejected", False, "slightly asymmetric: wrong error %s" % type(e).__name__)
             # invalid: not symmetric
             bad = U @ np.diag(np.arange(1, n + 1)) @ U.T
             bad = bad + np.triu(np.ones((n, n)), 1) * 1e-3
@@ -151,6 +164,17 @@ def _routine_case(item):
                         add("graph_embed", "ProportionalAdjacency", np.allclose(B, c * Ar, atol=1e-8) and abs(np.imag(c)) < 1e-9 and abs(c) > 1e-9, "ratio=%s" % c)
                     except Exception as e:  # noqa
                         add("graph_embed", "Raises", False, "%s: %s" % (type(e).__name__, str(e)[:100]))
+                    # with the trace removed first (documented: A -> A - tr(A)/n I, then the photon-number guarantee)
+                    At = Ar - np.trace(Ar) * np.eye(n) / n
+                    if np.linalg.norm(At) > 1e-6:
+                        try:
+                            sq, W = dec.graph_embed(Ar, mean_photon_per_mode=nbar, make_traceless=True)
+                            add("graph_embed", "MeanPhoton", abs(np.mean(np.sinh(sq) ** 2) - nbar) < 1e-6, "traceless: mean sinh^2 = %.6g" % np.mean(np.sinh(sq) ** 2))
+                            B = W @ np.diag(np.tanh(sq)) @ W.T
+                            c = np.vdot(At, B) / np.vdot(At, At)
+                            add("graph_embed", "ProportionalAdjacency", np.allclose(B, c * At, atol=1e-8) and abs(np.imag(c)) < 1e-9 and abs(c) > 1e-9, "traceless ratio=%s" % c)
+                        except Exception as e:  # noqa
+                            add("graph_embed", "Raises", False, "traceless %s: %s" % (type(e).__name__, str(e)[:100]))
             # meshes, directly: the routines return parameters; multiply back through the harness' own beamsplitters by
             # executing the command builders is done in C02; here only "valid in => no exception, invalid in => ValueError"
             import strawberryfields as sf
@@ -181,6 +205,13 @@ def _routine_case(item):
                     add(mesh, "AcceptsValid", True)
                 except Exception as e:  # noqa
                     add(mesh, "AcceptsValid", False, "%s: %s" % (type(e).__name__, str(e)[:100]))
+                if np.allclose(np.imag(U), 0):
+                    # a real orthogonal matrix handed over as a real array (determinant +1 or -1)
+                    try:
+                        getattr(dec, mesh)(np.real(U).copy())
+                        add(mesh, "AcceptsValid", True)
+                    except Exception as e:  # noqa
+                        add(mesh, "AcceptsValid", False, "real array, det %+.0f: %s: %s" % (np.linalg.det(np.real(U)), type(e).__name__, str(e)[:100]))
                 try:
                     getattr(dec, mesh)(U * 1.01 + 0.01)
                     add(mesh, "InvalidRejected", False, "non-unitary input was decomposed")
@@ -199,6 +230,17 @@ def _routine_case(item):
                     "diag=%s" % np.round(dz, 5).tolist())
             except Exception as e:  # noqa
                 add("bloch_messiah", "Raises", False, "%s: %s" % (type(e).__name__, str(e)[:100]))
+            for eps in (1e-6, 3e-5):
+                bad = S.copy()
+                bad[0, -1] += eps
+                try:
+                    O1, Z, O2 = dec.bloch_messiah(bad)
+                    ok = np.allclose(O1 @ Z @ O2, bad, atol=1e-8) and all(np.allclose(O.T @ Om @ O, Om, atol=1e-8) for O in (O1, O2))
+                    add("bloch_messiah", "InvalidRejected", ok, "input off the symplectic group by %g was decomposed wrongly" % eps)
+                except ValueError:
+                    add("bloch_messiah", "InvalidRejected", True)
+                except Exception as e:  # noqa
+                    add("bloch_messiah", "InvalidRejected", False, "slightly non-symplectic: wrong error %s" % type(e).__name__)
             try:
                 dec.bloch_messiah(S + 0.01 * np.arange(4 * n * n).reshape(2 * n, 2 * n) / (4 * n * n))
                 add("bloch_messiah", "InvalidRejected", False, "non-symplectic input was decomposed")
@@ -217,6 +259,19 @@ def _routine_case(item):
                     "diag=%s" % np.round(dd, 5).tolist())
             except Exception as e:  # noqa
                 add("williamson", "Raises", False, "%s: %s" % (type(e).__name__, str(e)[:100]))
+            # boundary of tolerance: an input that is invalid by far more than the documented tolerance (1e-11) but by little in
+            # absolute terms is rejected, or else decomposed *correctly* -- never decomposed wrongly
+            for eps in (1e-6, 3e-5):
+                bad = V.copy()
+                bad[0, -1] += eps
+                try:
+                    Db, Sw = dec.williamson(bad)
+                    err = min(np.max(np.abs(Sw.T @ Db @ Sw - bad)), np.max(np.abs(Sw @ Db @ Sw.T - bad)))
+                    add("williamson", "InvalidRejected", err < 1e-8, "input asymmetric by %g was decomposed with error %.3g" % (eps, err))
+                except ValueError:
+                    add("williamson", "InvalidRejected", True)
+                except Exception as e:  # noqa
+                    add("williamson", "InvalidRejected", False, "slightly asymmetric: wrong error %s" % type(e).__name__)
             for lab, bad in (("asymmetric", V + np.triu(np.ones_like(V), 1) * 1e-3), ("odd", V[:-1, :-1]), ("indefinite", V - 3 * np.eye(2 * n))):
                 try:
                     dec.williamson(bad)
